@@ -269,13 +269,11 @@ func netStreams(c *mon.Ctx, h *hostile.Harness) {
 		cw := &capWriter{}
 		w.n.Exec.VerifSyncer().HandleRPCEndpointGetBlocksFromID()(cw, &p2p.Request{Data: lsync.VerifEncodeGetBlocksFromIDRequest(w.chain[from].Header.ID), PeerID: hostilePeer})
 		honest := cw.data
-		sm, _ := hostile.StructureMutants(honest)
-		r.Shuffle(len(sm), func(i, j int) { sm[i], sm[j] = sm[j], sm[i] })
+		sm, _ := hostile.SampleStructureMutants(r, honest, 14)
 		muts := append([]hostile.Mutant{{Class: "valid", Data: honest}}, hostile.Truncations(r, honest, 0, 6)[:6]...)
-		if len(sm) > 14 {
-			sm = sm[:14]
+		for _, l := range sm {
+			muts = append(muts, hostile.Mutant{Class: l.Class, Data: l.Build()})
 		}
-		muts = append(muts, sm...)
 		muts = append(muts, hostile.RandomMutants(r, honest, 4)...)
 		var cur []byte
 		e.blocksFromID = func(int, []byte) ([]byte, error) { return cur, nil }
@@ -303,9 +301,12 @@ func netStreams(c *mon.Ctx, h *hostile.Harness) {
 			}
 		}
 		cb := (&lsync.GetHighestCommonBlockResponse{ID: w.tipID}).Encode()
-		csm, _ := hostile.StructureMutants(cb)
-		r.Shuffle(len(csm), func(i, j int) { csm[i], csm[j] = csm[j], csm[i] })
-		for _, m := range append(csm[:8], hostile.Mutant{Class: "valid", Data: cb}, hostile.Mutant{Class: "empty", Data: nil}) {
+		lcsm, _ := hostile.SampleStructureMutants(r, cb, 8)
+		csm := []hostile.Mutant{{Class: "valid", Data: cb}, {Class: "empty", Data: nil}}
+		for _, l := range lcsm {
+			csm = append(csm, hostile.Mutant{Class: l.Class, Data: l.Build()})
+		}
+		for _, m := range csm {
 			cur = m.Data
 			var rerr error
 			res := h.Call(k, "sync.requestHighestCommonBlock", m.Class, m.Data, func() {
@@ -349,10 +350,11 @@ func netStreams(c *mon.Ctx, h *hostile.Harness) {
 			{"response:getBlocksFromId", "res", p2p.VerifEncodeResponse(id, lsync.RPCEndpointGetBlocksFromID, w.n.Tip().Encode(), "")},
 		}
 		b := bases[r.Intn(len(bases))]
-		sm, _ := hostile.StructureMutants(b.data)
-		r.Shuffle(len(sm), func(i, j int) { sm[i], sm[j] = sm[j], sm[i] })
+		sm, _ := hostile.SampleStructureMutants(r, b.data, 3)
 		muts := []hostile.Mutant{{Class: "valid", Data: b.data}}
-		muts = append(muts, sm[:3]...)
+		for _, l := range sm {
+			muts = append(muts, hostile.Mutant{Class: l.Class, Data: l.Build()})
+		}
 		tr := hostile.Truncations(r, b.data, 1<<20, 0)
 		muts = append(muts, tr[r.Intn(len(tr))], hostile.RandomMutants(r, b.data, 1)[0])
 		// hostile inner body inside a well-formed request envelope
